@@ -445,10 +445,15 @@ def extract(repo=None, with_tools=True, extra_flags=(), tag=""):
     if not os.path.exists(os.path.join(d, "OK")):
         if os.path.isdir(FACTS_ROOT):
             # keep the cache small: drop older fact sets
-            olds = sorted((os.path.join(FACTS_ROOT, x) for x in os.listdir(FACTS_ROOT)),
+            olds = sorted((os.path.join(FACTS_ROOT, x) for x in os.listdir(FACTS_ROOT) if x != "pos"),
                           key=lambda p: os.path.getmtime(p))
+            now = time.time()
+            olds = [o for o in olds if now - os.path.getmtime(o) > 600]
             for o in olds[:-6]:
                 shutil.rmtree(o, ignore_errors=True)
+        final = d
+        d = final + ".tmp.%d" % os.getpid()
+        shutil.rmtree(d, ignore_errors=True)
         os.makedirs(d, exist_ok=True)
 
         def one(u):
@@ -464,6 +469,12 @@ def extract(repo=None, with_tools=True, extra_flags=(), tag=""):
             shutil.rmtree(d, ignore_errors=True)
             raise BrokenAnalysis("units do not parse: " + "; ".join("%s: %s" % (u, e.strip()[-300:]) for u, e in bad))
         open(os.path.join(d, "OK"), "w").write(time.ctime())
+        # publish atomically: concurrent checks either see the complete directory or build their own
+        try:
+            os.rename(d, final)
+        except OSError:
+            shutil.rmtree(d, ignore_errors=True)
+        d = final
     return Program(repo, lib, tools if with_tools else [], d, flags)
 
 
